@@ -140,7 +140,8 @@ Proof. exact merge_frame. Qed.
 Print Assumptions C02_merge_frame.
 
 (* doSendPushes, every schedule (enqueues, token acquisition, dequeues, hand-over, client completion,
-   stream closure at any moment, drops, stop, queue shutdown): the semaphore holds exactly one token per
+   send failure after hand-over (Connection.Push returns an error, the stream ends), stream closure at any
+   moment, drops, stop, queue shutdown): the semaphore holds exactly one token per
    event that is still parked or handed (+ at most the loop's own) and never more than its capacity; a
    connection is in [processing] exactly while it has such an event (MarkDone ran for every finished
    event, however it finished); the queue invariant holds, so C02_fifo_service / C02_queue_no_loss keep
@@ -196,4 +197,11 @@ Example C02_ex_sender_close_while_parked :
   let r := mkReq (Some 1) None None None (Some 1) 1 false in
   let s := srun 1 [SEnq 5 r; SAcquire; STake; SClose 5; SDrop 5; SEnq 6 r; SAcquire; STake; SHand 6] in
   (s_tokens s, s_done_calls s, alookup 6 (s_handed s)) = (1%nat, [5], Some (Some r)).
+Proof. vm_compute. reflexivity. Qed.
+
+Example C02_ex_sender_send_failure_mid_push :
+  let r := mkReq (Some 1) None None None (Some 1) 1 false in
+  let s := srun 1 [SEnq 5 r; SAcquire; STake; SHand 5; SClientFail 5; SEnq 6 r; SAcquire; STake; SHand 6] in
+  (s_tokens s, s_done_calls s, alookup 5 (processing (s_q s)), alookup 6 (s_handed s)) =
+  (1%nat, [5], None, Some (Some r)).
 Proof. vm_compute. reflexivity. Qed.
